@@ -120,4 +120,54 @@ theorem repeated_header_last_value_only :
 example : sigInput "GET".toList [] (ofWire [("Host".toList, "h".toList)]) (uriQ "b=2&a=1") =
     utf8 "GET\n\nhost:h\n/m\na=1&b=2".toList := by decide
 
+/-! ### the order of the `&`-separated pairs does not matter -/
+
+theorem nodup_map_inj {α β} (f : α → β) (l : List α) (h : (l.map f).Nodup) :
+    ∀ a ∈ l, ∀ b ∈ l, f a = f b → a = b := by
+  induction l with
+  | nil => intro a ha; cases ha
+  | cons x xs ih =>
+    simp only [List.map_cons, List.nodup_cons, List.mem_map, not_exists, not_and] at h
+    intro a ha b hb hab
+    rcases List.mem_cons.mp ha with ea | ea <;> rcases List.mem_cons.mp hb with eb | eb
+    · rw [ea, eb]
+    · subst ea; exact absurd hab.symm (h.1 b eb)
+    · subst eb; exact absurd hab (h.1 a ea)
+    · exact ih h.2 a ea b eb hab
+
+theorem lastPerKey_nodup (l : List (Str × (Str × Str))) (h : (l.map (·.1)).Nodup) : lastPerKey l = l := by
+  induction l with
+  | nil => rfl
+  | cons x xs ih =>
+    obtain ⟨k, p⟩ := x
+    simp only [List.map_cons, List.nodup_cons, List.mem_map, not_exists, not_and] at h
+    have hany : xs.any (fun kv => kv.1 = k) = false := by
+      rw [List.any_eq_false]
+      intro kv hkv
+      simpa using h.1 kv hkv
+    simp only [lastPerKey, hany, Bool.false_eq_true, ↓reduceIte]
+    rw [ih h.2]
+
+/-- **C04(f)** two requests whose query strings hold the same pairs in a different order are signed with the
+same canonical parameter string — for queries without the key+value collisions of finding F3 -/
+theorem canonParams_perm (u u' : Uri) (hp : (queryPairs u').Perm (queryPairs u))
+    (hd : ((queryPairs u).map fun kv => lower kv.1 ++ kv.2).Nodup) : canonParams u' = canonParams u := by
+  have hpm : ((queryPairs u').map fun kv => (lower kv.1 ++ kv.2, (lower kv.1, kv.2))).Perm
+      ((queryPairs u).map fun kv => (lower kv.1 ++ kv.2, (lower kv.1, kv.2))) := hp.map _
+  have hk : (((queryPairs u).map fun kv => (lower kv.1 ++ kv.2, (lower kv.1, kv.2))).map (·.1)).Nodup := by
+    simpa [List.map_map, Function.comp_def] using hd
+  have hk' : (((queryPairs u').map fun kv => (lower kv.1 ++ kv.2, (lower kv.1, kv.2))).map (·.1)).Nodup :=
+    (hpm.map (·.1)).symm.nodup_iff.mp hk
+  unfold canonParams
+  simp only []
+  rw [lastPerKey_nodup _ hk, lastPerKey_nodup _ hk']
+  rw [sortBy_perm _ keyOrder_weak _ _ hpm]
+  intro a ha b hb h1 h2
+  exact nodup_map_inj (·.1) _ hk' a ha b hb (strLt_total _ _ h1 h2)
+
+example : canonParams { path := ['/', 'p'], query := some ['b', '=', '2', '&', 'A', '=', '1'] } =
+    canonParams { path := ['/', 'p'], query := some ['a', '=', '1', '&', 'b', '=', '2'] } := by decide
+example : (queryPairs { path := ['/', 'p'], query := some ['b', '=', '2', '&', 'A', '=', '1'] }).Perm
+    (queryPairs { path := ['/', 'p'], query := some ['A', '=', '1', '&', 'b', '=', '2'] }) := by decide
+
 end Gpa.Props.C04
